@@ -1047,14 +1047,19 @@ func (c *Ctx) bytesOfString(v *Val, to types.Type, st *State) *Val {
 }
 
 func (c *Ctx) stringOfBytes(v *Val, to types.Type, st *State) *Val {
-	id := c.fresh1("b2s", "Int")
-	l := c.strLenFn()
-	c.assumeHere(sEq(sApp(l, id), v.Len))
 	et := v.T.Underlying().(*types.Slice).Elem()
 	name := elemPrefix(et)
 	sort := "(Array Int (Array " + c.idxSort() + " " + c.byteSort() + "))"
 	c.registerMap(name, sort)
 	m := c.lookup(st, name)
+	// the string is a function of the bytes converted: converting the same slice in the same
+	// state twice (in code and in a contract) yields the same string
+	inner := "(Array " + c.idxSort() + " " + c.byteSort() + ")"
+	c.declareFun("b2sfn", []string{inner, c.idxSort(), c.idxSort()}, "Int")
+	id := c.fresh1("b2s", "Int")
+	c.asserts = append(c.asserts, sEq(id, sApp("b2sfn", "(select "+m+" "+v.Arr+")", v.Off, v.Len)))
+	l := c.strLenFn()
+	c.assumeHere(sEq(sApp(l, id), v.Len))
 	var rng string
 	if c.mode == "int" {
 		rng = sAnd("(<= 0 i)", "(< i "+v.Len+")")
